@@ -5,6 +5,7 @@ package props
 import (
 	"bytes"
 	"fmt"
+	"math"
 	"sort"
 
 	"github.com/fluhus/biostuff/align"
@@ -25,7 +26,25 @@ type MatSpec struct {
 	// Scale multiplies every score (0 = 1). Scores stay integers that float64 represents
 	// exactly (and sums of a few hundred of them too), but not float32.
 	Scale int `json:"scale,omitempty"`
+	// Div divides every score (0 = 1). With a divisor that is not a power of two the scores
+	// are decimal fractions (0.1, 0.3) that binary floating point does not represent exactly:
+	// sums then depend on the order of additions in the last bits, and scores are compared
+	// with the tolerance tol() instead of exactly.
+	Div int `json:"div,omitempty"`
+	// InfGaps sets every per-character gap score to -Inf ("gaps are forbidden").
+	InfGaps bool `json:"inf_gaps,omitempty"`
 }
+
+// tol is the tolerance for score comparisons under this matrix (0: exact).
+func (s MatSpec) tol() float64 {
+	if s.Named != "" || s.Div <= 1 || s.Div&(s.Div-1) == 0 {
+		return 0
+	}
+	return 1e-9
+}
+
+// near: equal, or within tol (equal infinities are equal).
+func near(a, b, tol float64) bool { return a == b || math.Abs(a-b) <= tol }
 
 var shippedMatrices = map[string]func() align.SubstitutionMatrix{
 	"Levenshtein": func() align.SubstitutionMatrix { return align.Levenshtein },
@@ -40,14 +59,14 @@ var shippedMatrices = map[string]func() align.SubstitutionMatrix{
 var shippedNames = []string{"Levenshtein", "PAM120", "PAM160", "PAM250", "BLOSUM45", "BLOSUM62", "BLOSUM80"}
 
 // build returns the matrix for the implementation and an independent copy for the reference.
-func (s MatSpec) build() (align.SubstitutionMatrix, ref.Matrix, error) {
+func (s MatSpec) build() (m align.SubstitutionMatrix, r ref.Matrix, err error) {
 	if s.Named != "" {
 		f, ok := shippedMatrices[s.Named]
 		if !ok {
 			return nil, nil, fmt.Errorf("unknown matrix %q", s.Named)
 		}
-		m := f()
-		r := ref.Matrix{}
+		m = f()
+		r = ref.Matrix{}
 		for k, v := range m {
 			r[k] = v
 		}
@@ -57,12 +76,24 @@ func (s MatSpec) build() (align.SubstitutionMatrix, ref.Matrix, error) {
 	if len(s.Pair) != n || len(s.DelGap) != n || len(s.InsGap) != n {
 		return nil, nil, fmt.Errorf("malformed matrix spec")
 	}
-	m := align.SubstitutionMatrix{}
-	r := ref.Matrix{}
+	m = align.SubstitutionMatrix{}
+	r = ref.Matrix{}
 	sc := float64(max(s.Scale, 1))
 	if s.Scale > 1<<30 {
 		return nil, nil, fmt.Errorf("scale too large")
 	}
+	if s.Div > 1 {
+		sc /= float64(s.Div)
+	}
+	defer func() {
+		if s.InfGaps {
+			for k := range m {
+				if (k[0] == 255) != (k[1] == 255) {
+					m[k], r[k] = math.Inf(-1), math.Inf(-1)
+				}
+			}
+		}
+	}()
 	for i := 0; i < n; i++ {
 		if len(s.Pair[i]) != n || s.Letters[i] == 255 {
 			return nil, nil, fmt.Errorf("malformed matrix spec")
@@ -131,8 +162,8 @@ type matOpts struct {
 
 func genMatSpec(t *rapid.T, o matOpts) MatSpec {
 	// ("aAbB", "acgtACGTN": letters in both cases with scores of their own - soft-masked sequence -
-	// and an ambiguity code)
-	pool := rapid.SampledFrom([]string{"ab", "abc", "ACGT", "a", "xyzwv", "a\x00\xfe", "aAbB", "acgtACGTN"}).Draw(t, "letters")
+	// and an ambiguity code; "a\xe1b\xe2", "A\xc1\x01\x81": bytes together with their twins 0x80 higher)
+	pool := rapid.SampledFrom([]string{"ab", "abc", "ACGT", "a", "xyzwv", "a\x00\xfe", "aAbB", "acgtACGTN", "a\xe1b\xe2", "\x41\xc1\x01\x81"}).Draw(t, "letters")
 	n := len(pool)
 	s := MatSpec{Letters: gen.B(pool)}
 	style := rapid.IntRange(0, 3).Draw(t, "style")
@@ -178,6 +209,10 @@ func genMatSpec(t *rapid.T, o matOpts) MatSpec {
 		}
 	}
 	s.Scale = rapid.SampledFrom([]int{0, 0, 0, 0, 1000003, 1 << 25, 16777217, 7}).Draw(t, "scale")
+	if s.Scale == 0 {
+		s.Div = rapid.SampledFrom([]int{0, 0, 0, 0, 0, 8, 10, 10, 3}).Draw(t, "div")
+	}
+	s.InfGaps = rapid.IntRange(0, 24).Draw(t, "infGaps") == 11
 	s.Open = rapid.IntRange(o.openLo, o.openHi).Draw(t, "open")
 	if o.openNonZero && s.Open == 0 {
 		s.Open = o.openLo
@@ -413,6 +448,12 @@ func matDesc(s MatSpec) string {
 	if s.Scale > 1 {
 		d += fmt.Sprintf(" (all scores x%d)", s.Scale)
 	}
+	if s.Div > 1 {
+		d += fmt.Sprintf(" (all scores /%d)", s.Div)
+	}
+	if s.InfGaps {
+		d += " (all per-character gap scores -Inf)"
+	}
 	return d
 }
 
@@ -448,6 +489,45 @@ func realAlignCases(opens []int, sizes []int, emit func(AlignCase) bool) bool {
 			for _, local := range []bool{false, true} {
 				for _, m := range []MatSpec{dna(1, -4, -1, open), dna(1, -1, -1, open), dna(2, -3, -2, open)} {
 					if !emit(AlignCase{A: gen.B(pair[0]), B: gen.B(pair[1]), M: m, Local: local}) || !emit(AlignCase{A: gen.B(pair[1]), B: gen.B(pair[0]), M: m, Local: local}) {
+						return false
+					}
+				}
+			}
+		}
+		// decimal scores that binary floating point cannot represent (gap -0.4, open -0.3, ...):
+		// compared with a tolerance, so only a loss of the size of a score counts
+		if open != 0 {
+			dec := dna(10, -10, -4, open)
+			dec.Div = 10
+			dec3 := dna(7, -5, -2, open)
+			dec3.Div = 3
+			short := allSeqs([]byte("AC"), 4)
+			for _, a := range short {
+				for _, b := range short {
+					for _, local := range []bool{false, true} {
+						if !emit(AlignCase{A: a, B: b, M: dec, Local: local}) || (len(a)+len(b))%2 == 0 && !emit(AlignCase{A: a, B: b, M: dec3, Local: local}) {
+							return false
+						}
+					}
+				}
+			}
+		}
+		// gaps forbidden (-Inf): sequences of equal and of different lengths
+		forbid := dna(2, -1, -1, open)
+		forbid.InfGaps = true
+		for _, pair := range [][2]string{{"ACGT", "ACGT"}, {"ACGT", "AGT"}, {"A", ""}, {"", ""}, {"ACGTACGT", "TACGTACG"}, {"AC", "CA"}} {
+			for _, local := range []bool{false, true} {
+				if !emit(AlignCase{A: gen.B(pair[0]), B: gen.B(pair[1]), M: forbid, Local: local}) {
+					return false
+				}
+			}
+		}
+		// bytes and their twins 0x80 higher (Latin-1 letters next to ASCII ones)
+		twins := MatSpec{Letters: gen.B("a\xe1b\xe2"), Pair: [][]int{{3, -2, -1, -3}, {-2, 4, -3, -1}, {-1, -3, 2, -2}, {-3, -1, -2, 5}}, DelGap: []int{-1, -1, -2, -2}, InsGap: []int{-1, -1, -2, -2}, Open: open}
+		for _, a := range allSeqs([]byte("a\xe1b\xe2"), 3) {
+			for _, b := range [][]byte{[]byte("a\xe1b\xe2"), []byte("\xe1a\xe1"), []byte("\xe2bb")} {
+				for _, local := range []bool{false, true} {
+					if !emit(AlignCase{A: a, B: b, M: twins, Local: local}) {
 						return false
 					}
 				}
